@@ -419,3 +419,30 @@ def _labels_ext_herald_svg(n: int, group: bool, hi: int, ho: int, n_labels: int)
     post: _
     """
     return _untraced(_labels_ext_herald_body, n, group, hi, ho, n_labels, False)
+
+
+def _barrier_variants_body(n, which, a, after, mpl, loss):
+    c = lw.Circuit(n)
+    c.bs(0)
+    if which == 0:
+        c.barrier()
+    elif which == 1:
+        c.barrier([])
+    elif which == 2:
+        c.barrier([a])
+    else:
+        c.barrier(list(range(a, n)))
+    if after:
+        c.ps(a, 0.3)
+    before = _observe(c)
+    if not _show(c, "mpl" if mpl else "svg", loss, False):
+        return False
+    return _observe(c) == before
+
+
+def _barrier_variants(n: int, which: int, a: int, after: bool, mpl: bool) -> bool:
+    """
+    pre: 2 <= n <= 3 and 0 <= which <= 3 and 0 <= a < n
+    post: _
+    """
+    return _untraced(_barrier_variants_body, n, which, a, after, mpl, False)
